@@ -65,7 +65,14 @@ class Ctx:
             else:
                 r = random.Random(knobs["sched_seed"] ^ (int.from_bytes(hashlib.sha1(name.encode()).digest()[:6], "big")))
                 chooser = policies.PolicyChooser(knobs["policy"], r)
-        res = harness.run_sim(argv, files, chooser, capacity=cap, feeder=feeder, keep_log=self.keep_log or parallel)
+        env = {
+            "start_method": knobs.get("start_method", "spawn"),
+            "tty": knobs.get("tty", False),
+            "piped_exts": knobs.get("piped_exts", ()),
+            "emfile_at": knobs.get("emfile_at"),
+        }
+        res = harness.run_sim(argv, files, chooser, capacity=cap, feeder=feeder, keep_log=self.keep_log or parallel,
+                              env=env)
         if parallel:
             self.sched[name] = list(res.choices)
             self.digests.append(res.log_digest)
